@@ -641,6 +641,11 @@ def gen_volume_laplacian(src, tree, out, parts):
     term = texpr(s5.value, Env(LAP, tnames={lname, cotn}))
     env = Env(LAP, znames={vi, vj}, tnames={om})
     co = [mat_assign(LAP, s, "mat", env) for s in lb[2:6]]
+    # the model SUMS coefficients: a diagonal slot is hit once per incident edge, so it must be accumulated (`+=`/`-=`);
+    # an off-diagonal slot (I, J) is hit once per edge, plain assignment and accumulation coincide there
+    for st, (r_, c_, _) in zip(lb[2:6], co):
+        if r_ == c_ and not isinstance(st, ast.AugAssign):
+            T.fail(LAP, st, "diagonal coefficient of volume_laplacian is assigned, not accumulated")
     out.append("(* ---- laplacian_op.volume_laplacian *)")
     out.append("Definition vl_face1 %s : Z * Z * Z := (%s)." % (binders([vi, vj, kk, ll], "Z"), ", ".join(cn(x) for x in faces[0])))
     out.append("Definition vl_face2 %s : Z * Z * Z := (%s)." % (binders([vi, vj, kk, ll], "Z"), ", ".join(cn(x) for x in faces[1])))
